@@ -133,7 +133,7 @@ impl Property for C19 {
         vec!["concrete format types reached through the guarded re-exports".into()]
     }
     fn cases(tier: Tier) -> u64 {
-        tier.pick(100_000, 2_000_000)
+        tier.pick(400_000, 2_000_000)
     }
     fn strategy(_tier: Tier) -> BoxedStrategy<Spec> {
         let edited = |s: BoxedStrategy<Value>| {
